@@ -11,7 +11,7 @@ def answer (line : String) : String :=
   match toks with
   | [] => "err:empty"
   | op :: args =>
-    match (Skglm.Ops.penOps op <|> Skglm.Ops.dfOps op <|> Skglm.Ops.blkOps op <|> Skglm.Ops.cdOps op <|> Skglm.Ops.valOps op <|> Skglm.Ops.estOps op <|> Skglm.Ops.solverOps op) with
+    match (Skglm.Ops.penOps op <|> Skglm.Ops.dfOps op <|> Skglm.Ops.blkOps op <|> Skglm.Ops.cdOps op <|> Skglm.Ops.valOps op <|> Skglm.Ops.estOps op <|> Skglm.Ops.solverOps op <|> Skglm.Ops.solverOps2 op) with
     | none => s!"err:unknown-op:{op}"
     | some p =>
       match p.run args with
